@@ -328,6 +328,14 @@ def gen_cases(tier, rng):
                 for cls in ("nel", "lsep", "c0", "del", "tab", "cr"):
                     for pos in (509, 510, 511, 512):
                         add(enc, "1.1", ctx, cls, pos - header_len(enc, "1.1", ctx), 10, pos=pos)
+    # (b') strings that are handed to the writer in ONE call and are longer than its buffer (names of elements / attributes / PI targets
+    # are; text is written unit by unit): every encoding - the writers differ in how they flush before writing through
+    for enc in ENCODINGS:
+        for ver in (VERSIONS if not quick else ["1.0"]):
+            for ctx in ("N", "AN", "PT"):
+                for n in (513, 600, 1025) if not quick else (600,):
+                    add(enc, ver, ctx, "plain", n, 0, pos=n, e2e=(n == 600))
+                add(enc, ver, ctx, "latin1" if enc != "US-ASCII" else "plain", 520, 3, pos=520)
     # (c) seeded mixtures: several specials in one string, several nodes
     names = list(CLASSES)
     for _ in range(300 if quick else 4000):
